@@ -86,8 +86,19 @@ def wrap_vector(c, q, Whex):
     return nw, W
 
 
+def side_conditions(out):
+    bad = []
+    if out.get("input_unchanged") is False:
+        bad.append("get_extended_system modified the positions of its input")
+    if out.get("vacancy_ok") is False:
+        bad.append("get_matches: the vacancy atoms do not carry the queried atomic numbers")
+    if out.get("consistent") is False:
+        bad.append("get_matches_simple: matches and displacements are not None together")
+    return bad
+
+
 def coq_term(c, out):
-    if "error" in out:
+    if "error" in out or side_conditions(out):
         return "false"
     a, b, cc = c["cell"]
     head = "%s %s %s %s" % (X.v3l(a), X.v3l(b), X.v3l(cc), X.pbcl(c["pbc"]))
@@ -354,6 +365,8 @@ def pred_simple(c, out):
 def predicate_failures(c, out):
     if "error" in out:
         return ["implementation raised " + out["error"]]
+    if side_conditions(out):
+        return side_conditions(out)
     k = c["kind"]
     if k in ("extend", "extend_deg"):
         return pred_extend(c, out)
@@ -444,7 +457,7 @@ def run(ctx):
     if pres["failed"]:
         broken = {"stage": "prove", "file": pres["failed"]["path"], "error": pres["failed"]["out"][-1500:]}
 
-    ncases = int(os.environ.get("VERIF_C16_CASES", "0")) or (2400 if ctx.tier == "quick" else 30000)
+    ncases = int(os.environ.get("VERIF_C16_CASES", "0")) or (1600 if ctx.tier == "quick" else 24000)
     batch_size = int(os.environ.get("VERIF_C16_BATCH", "6000"))
     dist = {"kind": {}, "n_atoms": {}, "pbc": {}, "cell_kind": {}, "ext_kind": {}, "copies_tie": 0, "copies_boundary_taken": 0,
             "cutoff_gt_extension": 0, "atoms_outside_cell": 0, "probes": 0, "probes_outside_cell": 0, "neighbour_rows": 0,
